@@ -19,7 +19,8 @@ Ops == {"dispense", "broker_h2p", "broker_p2h", "stdio", "accept_during_shutdown
         "broker_h2p_reuse", "broker_p2h_reuse",     \* _reuse: one brokered id used for several establishments in a row
         "raw_accept_reuse",                         \* the host application accepts an id twice itself and never closes the listeners
         "raw_accept_closed",                        \* it accepts two ids itself, closes the first listener when done with it, leaves the second
-        "raw_accept_unserved"}                      \* (gRPC) it reserves an id with Accept and never accepts on the listener; the plugin dials the
+        "raw_accept_unserved", "raw_accept_unserved_twice"} \* (_twice: dialled twice)
+                                                    \* (gRPC) it reserves an id with Accept and never accepts on the listener; the plugin dials the
                                                     \* id once and gives up; the application closes the listener after the Kill
 
 VARIABLES res, phase, nops, nb
@@ -45,9 +46,9 @@ Op(o) == /\ phase = "up" /\ nops < MaxOps /\ nops' = nops + 1
                  /\ nb' = nb + 2
                  /\ res' = res \cup (IF Proto = "grpc" /\ ~Mux THEN {<<"brokered_socket", "host", nb + 2>>} ELSE {})
                                \cup {<<"broker_goroutines", "both", nb + 1>>, <<"broker_goroutines", "both", nb + 2>>}
-            ELSE IF o = "raw_accept_unserved" /\ Proto = "grpc"
+            ELSE IF o \in {"raw_accept_unserved", "raw_accept_unserved_twice"} /\ Proto = "grpc"
             THEN \* a host listener nobody accepts on: its socket (plain gRPC) or its knock listener with the token of
-                 \* the one knock it acknowledged (multiplexed); the dialler's half-open connection on the plugin side
+                 \* the one knock it acknowledged (multiplexed; a second knock waits in unblock until the listener is closed); the dialler's half-open connections
                  /\ nb' = nb + 1
                  /\ res' = res \cup (IF ~Mux THEN {<<"brokered_socket", "host", nb + 1>>} ELSE {})
                                \cup {<<"broker_goroutines", "both", nb + 1>>}
